@@ -299,7 +299,7 @@ def _plain_pool(rng, extra):
             ("pad-lookalike", b"A" * 15 + b"\x01"), ("pad-lookalike16", b"\x10" * 16)]
     for i in range(extra):
         n = rng.choice([rng.randrange(0, 16), rng.randrange(16, 48), rng.randrange(48, 200)])
-        pool.append(("rand%d" % n, bytes(rng.getrandbits(8) for _ in range(n))))
+        pool.append(("rand%d-%d" % (i, n), bytes(rng.getrandbits(8) for _ in range(n))))
     return pool
 
 
@@ -316,7 +316,7 @@ def _key_pool(rng, n):
 
 
 def gen_cases(rng, tier):
-    nkeys, nplain = (7, 6) if tier == "quick" else (40, 40)
+    nkeys, nplain = (27, 15) if tier == "quick" else (40, 40)
     keys = _key_pool(rng, nkeys)
     plains = _plain_pool(rng, nplain)
     rb = lambda n: bytes(rng.getrandbits(8) for _ in range(n))  # noqa: E731
@@ -344,7 +344,8 @@ def gen_cases(rng, tier):
         ext = [("extended-unaligned", good + b"\x00"), ("extended-unaligned", good + rb(15)),
                ("not-block-aligned", rb(16) + good[16:] + rb(7))]
         for cls, ct in shorts + unaligned + trunc + ext:
-            yield {"kind": "aes-reject", "key": key.hex(), "ct": ct.hex(), "class": cls}, (kname, cls, len(ct))
+            yield {"kind": "aes-reject", "key": key.hex(), "ct": ct.hex(), "class": cls}, (kname, cls, ct.hex()[-8:],
+                                                                                           len(ct))
     # --- unknown / missing methods
     key = keys[-1][1]
     for cls, m in [("unknown", "rot13"), ("unknown", "AES"), ("unknown", "Xor"), ("unknown", " aes"),
@@ -398,7 +399,7 @@ def gen_cases(rng, tier):
             ("not-utf8-after-decrypt", {"method": "aes", "ciphertext": b64(ref_aes_enc(key, rb(16), b"\x80\x81"))}),
         ]
         for i, (cls, v) in enumerate(stored):
-            yield {"kind": "stored-reject", "key": key.hex(), "value": _enc(v), "class": cls}, (kname, cls, i)
+            yield {"kind": "stored-reject", "key": key.hex(), "value": _enc(v), "class": cls}, (key.hex()[:8], cls, i)
     # --- SecureField round trip through new config objects
     texts = [("1", "x"), ("ascii", "hunter2"), ("16", "sixteen chars..!"), ("long", "correct horse battery staple " * 4),
              ("unicode", "pässwörd ☃ \U0001f511"), ("b64-lookalike", "QUJD"), ("json-ish", '{"a": 1}')]
@@ -419,7 +420,7 @@ def rac(tier: str, seed: int) -> dict:
                    "17, 31, 32, 33, 48, 65, 100 bytes, non-UTF-8, padding look-alikes + seeded random lengths < 200; "
                    "methods aes/xor/best; AES ciphertext lengths 0..31, unaligned, truncated, extended; 11 bad "
                    "methods; 47 malformed stored values x 3 keys; 7 texts x 3 methods through SecureField"
-                   % ("7" if tier == "quick" else "40"), tier=tier, seed=seed)
+                   % ("27" if tier == "quick" else "40"), tier=tier, seed=seed)
     with sandbox() as tmp:
         n = 0
         for case, key in gen_cases(rec.rng, tier):
